@@ -118,23 +118,39 @@ func VerifC10Consistency() {
 			a["deploy"] = map[string]any{"replicas": r}
 		}
 		bad = hasS && hasR && s != r
-	case 9: // pids_limit and deploy.resources.limits.pids
-		p := vrtInt("pids", 1, 3)
-		q := vrtInt("limitPids", 1, 3)
-		a["pids_limit"] = p
-		a["deploy"] = map[string]any{"resources": map[string]any{"limits": map[string]any{"pids": q}}}
-		bad = p != q
-	case 10: // mem_limit / mem_reservation and deploy.resources
-		m := vrtInt("mem", 1, 3)
-		q := vrtInt("limitMem", 1, 3)
-		if vrtChoice("which", 2) == 0 {
-			a["mem_limit"] = m
-			a["deploy"] = map[string]any{"resources": map[string]any{"limits": map[string]any{"memory": strconv.Itoa(q)}}}
-		} else {
-			a["mem_reservation"] = m
-			a["deploy"] = map[string]any{"resources": map[string]any{"reservations": map[string]any{"memory": strconv.Itoa(q)}}}
+	case 9, 10: // paired settings: pids_limit, mem_limit, mem_reservation, cpus and their deploy.resources counterparts
+		m := vrtInt("own", 1, 3)
+		q := vrtInt("deploy", 1, 3)
+		pair := vrtChoice("pair", 4)
+		attr := []string{"pids_limit", "mem_limit", "mem_reservation", "cpus"}[pair]
+		box := []string{"limits", "limits", "reservations", "limits"}[pair]
+		other := []string{"reservations", "reservations", "limits", "reservations"}[pair]
+		key := []string{"pids", "memory", "memory", "cpus"}[pair]
+		var val any = q
+		if key != "pids" {
+			val = strconv.Itoa(q)
 		}
-		bad = m != q
+		a[attr] = m
+		// where the counterpart lives, and what else of deploy exists around it
+		shape := vrtChoice("deployShape", 6)
+		switch shape {
+		case 0: // the counterpart alone
+			a["deploy"] = map[string]any{"resources": map[string]any{box: map[string]any{key: val}}}
+		case 1: // the counterpart next to the other box
+			a["deploy"] = map[string]any{"resources": map[string]any{box: map[string]any{key: val}, other: map[string]any{"cpus": "1"}}}
+		case 2: // only the other box: nothing to compare with
+			a["deploy"] = map[string]any{"resources": map[string]any{other: map[string]any{"cpus": "1"}}}
+		case 3: // the right box without the counterpart
+			a["deploy"] = map[string]any{"resources": map[string]any{box: map[string]any{"cpus": "1"}}}
+			if key == "cpus" {
+				a["deploy"] = map[string]any{"resources": map[string]any{box: map[string]any{"pids": 1}}}
+			}
+		case 4: // empty resources
+			a["deploy"] = map[string]any{"resources": map[string]any{}}
+		case 5: // deploy without resources
+			a["deploy"] = map[string]any{"replicas": 1}
+		}
+		bad = shape <= 1 && m != q
 	case 11: // container_name with several replicas
 		s := vrtInt("scale", 0, 3)
 		a["container_name"] = "cn"
@@ -253,9 +269,11 @@ func VerifC10Consistency() {
 		return
 	}
 	vrtCover("consistent")
-	vrtAssert("consistent-model-loads", err == nil)
 	if err != nil {
 		vrtObserve("msg", err.Error())
+	}
+	vrtAssert("consistent-model-loads", err == nil)
+	if err != nil {
 		return
 	}
 	// accepted => invariant (independent re-check on the typed project)
